@@ -83,6 +83,17 @@ def shared_jobs(tier, s0, names=None):
             jobs.append((_scn(n, proto, seed=s0, scribble=True), {'d': 0}))
             for mode in ('thread', 'process'):
                 jobs.append((_scn(n, proto, seed=s0, scribble=True, mode=mode, workers=2), {'d': 0}))
+    # (B3) degenerate but valid objectives: constant 0 (every agent has exactly the same cost) and a step function
+    for n in names:
+        for obj in ('zero', 'step'):
+            for mm in ('min', 'max'):
+                jobs.append((_scn(n, 'cont3z', mm, 3, seed=s0, obj=obj), {'d': 0}))
+    # (A2) a population that is not a multiple of the usual group counts (documented + 1), both directions, d <= 1 over
+    #      the choice points of the initialisation (an extreme initial agent is the best one for max, the worst for min)
+    for n in names:
+        for mm in ('min', 'max'):
+            jobs.append((_scn(n, 'cont3z', mm, 2, seed=s0, over={'population_size': registry.doc_population(n) + 1},
+                              odd_population=True), {'d': 1, 'range': 'init'}))
     # (C) modes through the model pools: schedule / worker-assignment deviations, and worker counts
     for n in names:
         for mode in ('thread', 'process'):
@@ -126,6 +137,9 @@ def shared_jobs(tier, s0, names=None):
     for n in names:
         for f, v in registry.param_deviations(n):
             jobs.append((_scn(n, seed=s0, over={f: v}, c10_bounds_only=True), {'d': 0}))
+    for n in names:
+        for f, v in registry.param_boundary_values(n):
+            jobs.append((_scn(n, seed=s0, over={f: v}, c10_bounds_only=True, timeout=60), {'d': 0}))
     if tier == 'thorough':
         for n in names:
             jobs.append((_scn(n, minmax='max', seed=s0), {'d': 1, 'range': 'all'}))
